@@ -543,6 +543,13 @@ func (a *act) applyExtern(xs *ExternSpec, sig *types.Signature, args []Val, cs c
 		}
 		e.cur.log.assert(implies(reach, t))
 	}
+	if xs.Name == "strconv.ParseFloat" && len(env2.results) == 2 && len(args) > 0 && args[0].T != nil {
+		// the parsed float may be NaN: spec function nanF(s)
+		e.cur.log.declFun("spec.nanF", []Sort{SStr}, SBool)
+		f := env2.results[0]
+		f.Ext = &FloatFlags{NaN: app(SBool, "spec.nanF", args[0].T[0])}
+		result.Ext = &KnownSlice{Elems: []Val{f, env2.results[1]}}
+	}
 	return result, post
 }
 
@@ -610,6 +617,19 @@ func (a *act) intrinsic(name string, fn *ssa.Function, args []Val, rtyp types.Ty
 		return one(app(SStr, "str.upper", t(0)))
 	case "strings.Index":
 		return one(app(SInt, "str.index", t(0), t(1)))
+	case "go2.Contains":
+		// membership in a slice whose elements are known (constant package slice)
+		if ks, ok := args[0].Ext.(*KnownSlice); ok && ks != nil && len(args) == 2 {
+			var cs []Term
+			for _, el := range ks.Elems {
+				t, ok := e.valEq(args[1], el)
+				if !ok {
+					return Val{}, false
+				}
+				cs = append(cs, t)
+			}
+			return one(or(cs...))
+		}
 	case "go2.Min", "go2.Max":
 		op := "imin"
 		if name == "go2.Max" {
